@@ -1,12 +1,14 @@
 #!/bin/sh
 # Sensitivity sweep: every committed mutant must turn its property's quick check red (exit 1).
+#   tools/sensitivity.sh            one seed (VERIF_SEED default 1)
+#   tools/sensitivity.sh 2,3,5      every mutant at each of these seeds - FLAKY = caught at some seeds only (luck)
 cd "$(dirname "$0")/.."
 bad=0
 for d in mutants/*/; do
   p=$(basename "$d")
-  out=$(tools/mut.py "$p" --all 2>&1)
+  out=$(tools/mut.py "$p" --all ${1:+--seeds $1} 2>&1)
   echo "$out" | cut -c1-160
-  echo "$out" | grep -q "MISSED\|ERROR\|PATCH-FAILED" && bad=1
+  echo "$out" | grep -q "MISSED\|ERROR\|PATCH-FAILED\|FLAKY" && bad=1
 done
 [ $bad -eq 0 ] && echo "ALL MUTANTS CAUGHT" || echo "SOME MUTANTS NOT CAUGHT"
 exit $bad
